@@ -161,7 +161,127 @@ def scenario(x, p):
                                                                'label'))
 
 
+DATA_SECTIONS = ('gfx', 'gff', 'map', 'sfx', 'music')
+
+
+def cart_text(tag, label=False):
+    """A .p8 file (written by the real writer) whose six sections all carry
+    the tag."""
+    from pico8.game.formatter.p8 import P8Formatter
+    from pico8.lua import lua
+    g = ggame.Game.make_empty_game(filename='x.p8')
+    g.lua = lua.Lua.from_lines([b'v=%d\n' % tag], version=8)
+    for i, sec in enumerate(DATA_SECTIONS):
+        d = getattr(g, sec)._data
+        d[0] = tag
+        d[5] = (tag + i + 1) % 128
+        d[len(d) - 1] = (tag + 7 * i) % 128
+    if label:
+        g.label._data[3] = tag
+    out = hx.MemStream()
+    P8Formatter.to_file(g, out, filename='x.p8')
+    return out.getvalue()
+
+
+def empty_text():
+    from pico8.game.formatter.p8 import P8Formatter
+    out = hx.MemStream()
+    P8Formatter.to_file(ggame.Game.make_empty_game(filename='e.p8'), out,
+                        filename='e.p8')
+    return out.getvalue()
+
+
+def cli(x, p):
+    """`p8tool build ...` through tool.main (argparse wiring, real readers
+    and writers) over an in-memory file system with three distinct carts."""
+    from props import clikit
+    from pico8.lua import lua
+    free = p['free']
+    out_exists = x.bool('out_exists')
+    files = {'/w/a.p8': cart_text(11), '/w/b.p8': cart_text(23),
+             '/w/m.lua': b'v=99\n', '/w/notes.txt': b'hello'}
+    prev = None
+    if out_exists:
+        prev = cart_text(41, label=True)
+        files['/w/out.p8'] = prev
+    argv = ['build']
+    expected = {}
+    will_fail = False
+    fault = x.choice('fault', p.get('faults', ['none']))
+    fsec = x.choice('fault_sec', list(free)) if fault != 'none' else None
+    for sec in SECTIONS:
+        if sec not in free:
+            expected[sec] = 'prev'
+            continue
+        opts = ['none', 'a', 'b', 'empty']
+        if sec == 'lua':
+            opts.append('luafile')
+        c = x.choice('src_' + sec, opts)
+        if c in ('a', 'b', 'luafile'):
+            fn = {'a': '/w/a.p8', 'b': '/w/b.p8', 'luafile': '/w/m.lua'}[c]
+            if fsec == sec and fault == 'missing':
+                fn = '/w/nothere.p8'
+                will_fail = True
+            elif fsec == sec and fault == 'badext':
+                fn = '/w/notes.txt'
+                will_fail = True
+            argv += ['--' + sec, fn]
+            if fsec == sec and fault == 'both':
+                argv.append('--empty-' + sec)
+                will_fail = True
+            expected[sec] = c
+        elif c == 'empty':
+            argv.append('--empty-' + sec)
+            expected[sec] = 'empty'
+        else:
+            expected[sec] = 'prev'
+    argv.append('/w/out.p8')
+    x.out('argv', ' '.join(argv))
+    fs = clikit.MemFS(x, files)
+    rc, exc = clikit.run_main(argv)
+    if will_fail:
+        x.tag('bad arguments')
+        x.check('conflicting or unusable arguments fail the command',
+                Or(exc is not None, rc != 0))
+        x.check('and leave OUT untouched',
+                And(len(fs.opened_for_write) == 0,
+                    fs.files.get('/w/out.p8') == prev))
+        return
+    x.tag('ok')
+    x.check('build succeeds', And(exc is None, rc == 0),
+            info=repr((rc, exc))[:160])
+    if exc is not None or rc != 0:
+        return
+    x.check('only OUT is written', fs.opened_for_write == ['/w/out.p8'])
+    for n in ('/w/a.p8', '/w/b.p8', '/w/m.lua'):
+        x.check('sources are not modified', fs.files[n] == files[n])
+
+    def load(data):
+        from pico8.game.formatter.p8 import P8Formatter
+        return P8Formatter.from_file(hx.MemStream(data), filename='x.p8')
+    got = load(fs.files['/w/out.p8'])
+    carts = {'a': load(files['/w/a.p8']), 'b': load(files['/w/b.p8']),
+             'empty': load(empty_text())}
+    carts['prev'] = load(prev) if prev is not None else carts['empty']
+    for sec in SECTIONS:
+        e = expected[sec]
+        if sec == 'lua':
+            want = b'v=99\n' if e == 'luafile' else \
+                b''.join(carts[e].lua.to_lines())
+            x.check('section lua comes from the source the arguments name',
+                    b''.join(got.lua.to_lines()) == want)
+        else:
+            x.check('section %s comes from the source the arguments name'
+                    % sec,
+                    bytes(getattr(got, sec)._data) ==
+                    bytes(getattr(carts[e], sec)._data))
+    if prev is not None:
+        x.check('an existing .p8 OUT keeps its label section',
+                bytes(got.label._data) == bytes(carts['prev'].label._data))
+
+
 Q = {'_budget': 900}
+FAULTS = ['none', 'both', 'missing', 'badext']
 HARNESSES = [
     Harness('scenario', scenario,
             quick=[dict(Q, free=['lua', 'gfx']), dict(Q, free=['map', 'sfx']),
@@ -170,4 +290,12 @@ HARNESSES = [
                    dict(Q, free=['lua', 'gff'], fixed='empty'),
                    dict(Q, free=['map'], fixed='png')],
             thorough=[dict(Q, free=list(SECTIONS), _budget=3000)]),
+    Harness('cli', cli,
+            quick=[dict(Q, free=['lua', 'gfx']),
+                   dict(Q, free=['gff', 'map'], faults=FAULTS),
+                   dict(Q, free=['sfx', 'music'])],
+            thorough=[dict(Q, free=['lua', 'gfx', 'map'], faults=FAULTS,
+                           _budget=3000),
+                      dict(Q, free=['gff', 'sfx', 'music'], faults=FAULTS,
+                           _budget=3000)]),
 ]
